@@ -214,6 +214,8 @@ func VerifC12_StoreCancelledMidFlight() {
 	})
 	verif.Assert("action_observed_its_stop_signal", sawDone)
 	verif.Assert("cancelled_store_is_reported_as_cancellation", err != nil && commonerrors.Any(err, commonerrors.ErrCancelled, commonerrors.ErrTimeout))
+	// the deadline (5T) is far away: what stopped the action was the cancellation, and that is the kind reported
+	verif.Assert("a_cancellation_is_not_reported_as_a_timeout", commonerrors.Any(err, commonerrors.ErrCancelled) && !commonerrors.Any(err, commonerrors.ErrTimeout))
 }
 
 // VerifC12_ConcurrentRegistrations: two goroutines register concurrently, with
